@@ -289,6 +289,20 @@ theorem chain_in_binding_order_inv (st : St) (h : Tickit.Bindings.Inv st) :
     (keys st.list).Sublist (bindOrder st.log) ∧ (bindOrder st.log).Nodup :=
   ⟨h.order, (bindOrder_nodup h.trace).1⟩
 
+/-! ### no binding is lost -/
+
+/-- After any history, the bindings the trace says are live — bound, not unbound since, not a delivered one-shot —
+    are exactly the live nodes of the chain: no bind is lost, no unbound binding lingers. -/
+def LiveInChainStmt (cfg : Cfg) : Prop :=
+  ∀ own beh, NoDestroy beh → ∀ fuel ops st, ValidOps ops → Runs cfg own beh fuel ops st → Op.destroy ∉ ops →
+    ∀ k, liveAt st.log k ↔ liveKey st.list k
+
+theorem live_bindings_are_in_chain : LiveInChainStmt Cfg.repaired := by
+  intro own beh hb fuel ops st hops hr hnd k
+  have := execOps_good own beh hb fuel ops St.init hops Top.init
+  rw [hr] at this
+  exact ((this.2 hnd).1.liveIff k).symm
+
 /-! ### the unchanged code violates the clauses: counterexample theorems
 
 Each history below is the minimal replay stored under `corpus/C16/`; the real library reproduces every one of
@@ -298,7 +312,7 @@ them through the harness (see `known/C16.json`). -/
     occurrence and again when the outer walker reaches its tombstone (which kept `evindex`). -/
 theorem oneshot_counterexample : ¬ OneshotStmt Cfg.original := by
   intro h
-  obtain ⟨st, hr, hlog⟩ := runs_of_isOk (cfg := Cfg.original) (own := Owner.pen) (beh := behReemit) (fuel := 30)
+  obtain ⟨st, hr, hlog, _⟩ := runs_of_isOk (cfg := Cfg.original) (own := Owner.pen) (beh := behReemit) (fuel := 30)
     (ops := [.bind 1 false plain 0, .bind 1 false oneshot 1, .emit 1]) (by decide)
   have := h Owner.pen behReemit noDestroy_behReemit 30 _ st (by decide) hr 1 oneshot
     (by rw [hlog]; exact ⟨2, 1, false, by decide⟩) rfl
@@ -309,7 +323,7 @@ theorem oneshot_counterexample : ¬ OneshotStmt Cfg.original := by
     every key event. -/
 theorem oneshot_whilefalse_counterexample : ¬ OneshotStmt Cfg.original := by
   intro h
-  obtain ⟨st, hr, hlog⟩ := runs_of_isOk (cfg := Cfg.original) (own := Owner.term) (beh := behNone) (fuel := 30)
+  obtain ⟨st, hr, hlog, _⟩ := runs_of_isOk (cfg := Cfg.original) (own := Owner.term) (beh := behNone) (fuel := 30)
     (ops := [.bind 2 false oneshot 0, .emit 2, .emit 2]) (by decide)
   have := h Owner.term behNone noDestroy_behNone 30 _ st (by decide) hr 0 oneshot
     (by rw [hlog]; exact ⟨1, 2, false, by decide⟩) rfl
@@ -331,7 +345,7 @@ theorem no_ub_counterexample : ¬ NoUbStmt Cfg.original := by
     its own unbind notification: found (and notified) twice. -/
 theorem unbind_notify_counterexample : ¬ UnbindNotifyAtMostStmt Cfg.original := by
   intro h
-  obtain ⟨st, hr, hlog⟩ := runs_of_isOk (cfg := Cfg.original) (own := Owner.pen) (beh := behSelfTwice) (fuel := 30)
+  obtain ⟨st, hr, hlog, _⟩ := runs_of_isOk (cfg := Cfg.original) (own := Owner.pen) (beh := behSelfTwice) (fuel := 30)
     (ops := [.bind 1 false wantsUnbind 0, .emit 1]) (by decide)
   have := (h Owner.pen behSelfTwice noDestroy_behSelfTwice 30 _ st (by decide) hr 0).2.1
   rw [hlog] at this
@@ -341,12 +355,28 @@ theorem unbind_notify_counterexample : ¬ UnbindNotifyAtMostStmt Cfg.original :=
     unbound is delivered it. -/
 theorem no_fire_after_unbind_counterexample : ¬ NoFireAfterUnbindStmt Cfg.original := by
   intro h
-  obtain ⟨st, hr, hlog⟩ := runs_of_isOk (cfg := Cfg.original) (own := Owner.pen) (beh := behReemit) (fuel := 30)
+  obtain ⟨st, hr, hlog, _⟩ := runs_of_isOk (cfg := Cfg.original) (own := Owner.pen) (beh := behReemit) (fuel := 30)
     (ops := [.bind 1 false wantsUnbind 0, .unbind 0]) (by decide)
   have := h Owner.pen behReemit noDestroy_behReemit 30 _ st (by decide) hr
     [.leave 0, .actEnd, .occEnd 1, .leave 0, .enter 0 0 1 1 1, .fire 0 1, .occBegin 1 1 false, .actBegin 0, .enter 0 0 0 2 0]
     [.bound 0 1 1 false wantsUnbind] 0 (by rw [hlog]; decide)
   revert this; decide
+
+/-- `corpus/C16/unbind_reentrant_lost_binding.ops`: the unbind notification of the head binding binds `FIRST`; the
+    stale `*bindp = bind->next` unlinks the new binding again. -/
+theorem lost_binding_counterexample : ¬ LiveInChainStmt Cfg.original := by
+  intro h
+  obtain ⟨st, hr, hlog, hchain⟩ := runs_of_isOk (cfg := Cfg.original) (own := Owner.pen) (beh := behBindFirst) (fuel := 30)
+    (ops := [.bind 1 false wantsUnbind 0, .unbind 0]) (by decide)
+  have hlive : liveAt st.log 1 := by
+    rw [hlog]
+    exact ⟨plain, ⟨2, 1, true, by decide⟩, by unfold reqIn; decide, fun ho => by cases ho⟩
+  obtain ⟨b, hbm, _, _⟩ := (h Owner.pen behBindFirst noDestroy_behBindFirst 30 _ st (by decide) hr (by decide) 1).1 hlive
+  have : b.key ∈ keys st.list := mem_keys.2 ⟨b, hbm, rfl⟩
+  have hnil : chainOf (execOps Cfg.original Owner.pen behBindFirst 30 [.bind 1 false wantsUnbind 0, .unbind 0] St.init) = [] := by
+    decide
+  rw [hchain, hnil] at this
+  cases this
 
 /-! ### the theorems are not vacuous: concrete histories of the repaired code that exercise them -/
 
@@ -354,14 +384,14 @@ theorem no_fire_after_unbind_counterexample : ¬ NoFireAfterUnbindStmt Cfg.origi
     binding 1 is bound and delivered exactly once, although event 1 occurred twice. -/
 example : ∃ st, Runs Cfg.repaired Owner.pen behReemit 30 [.bind 1 false plain 0, .bind 1 false oneshot 1, .emit 1] st ∧
     boundIn st.log 1 oneshot ∧ st.log.countP (isEnterFire 1) = 1 ∧ st.log.countP (isEnterFire 0) = 2 := by
-  obtain ⟨st, hr, hlog⟩ := runs_of_isOk (cfg := Cfg.repaired) (own := Owner.pen) (beh := behReemit) (fuel := 30)
+  obtain ⟨st, hr, hlog, _⟩ := runs_of_isOk (cfg := Cfg.repaired) (own := Owner.pen) (beh := behReemit) (fuel := 30)
     (ops := [.bind 1 false plain 0, .bind 1 false oneshot 1, .emit 1]) (by decide)
   refine ⟨st, hr, by rw [hlog]; exact ⟨2, 1, false, by decide⟩, by rw [hlog]; decide, by rw [hlog]; decide⟩
 
 /-- A one-shot key handler on a terminal: two key events, one delivery. -/
 example : ∃ st, Runs Cfg.repaired Owner.term behNone 30 [.bind 2 false oneshot 0, .emit 2, .emit 2] st ∧
     st.log.countP (isEnterFire 0) = 1 := by
-  obtain ⟨st, hr, hlog⟩ := runs_of_isOk (cfg := Cfg.repaired) (own := Owner.term) (beh := behNone) (fuel := 30)
+  obtain ⟨st, hr, hlog, _⟩ := runs_of_isOk (cfg := Cfg.repaired) (own := Owner.term) (beh := behNone) (fuel := 30)
     (ops := [.bind 2 false oneshot 0, .emit 2, .emit 2]) (by decide)
   exact ⟨st, hr, by rw [hlog]; decide⟩
 
@@ -369,13 +399,13 @@ example : ∃ st, Runs Cfg.repaired Owner.term behNone 30 [.bind 2 false oneshot
     code: no undefined behaviour, one request, one notification, both from the top level and under a walker. -/
 example : ∃ st, Runs Cfg.repaired Owner.pen behSelfTwice 30 [.bind 1 false wantsUnbind 0, .unbind 0] st ∧
     st.log.countP (isReq 0) = 1 ∧ st.log.countP (isNotif 0) = 1 := by
-  obtain ⟨st, hr, hlog⟩ := runs_of_isOk (cfg := Cfg.repaired) (own := Owner.pen) (beh := behSelfTwice) (fuel := 30)
+  obtain ⟨st, hr, hlog, _⟩ := runs_of_isOk (cfg := Cfg.repaired) (own := Owner.pen) (beh := behSelfTwice) (fuel := 30)
     (ops := [.bind 1 false wantsUnbind 0, .unbind 0]) (by decide)
   exact ⟨st, hr, by rw [hlog]; decide, by rw [hlog]; decide⟩
 
 example : ∃ st, Runs Cfg.repaired Owner.pen behSelfTwice 30 [.bind 1 false wantsUnbind 0, .emit 1] st ∧
     st.log.countP (isReq 0) = 1 ∧ st.log.countP (isNotif 0) = 1 ∧ st.log.countP (isEnterFire 0) = 1 := by
-  obtain ⟨st, hr, hlog⟩ := runs_of_isOk (cfg := Cfg.repaired) (own := Owner.pen) (beh := behSelfTwice) (fuel := 30)
+  obtain ⟨st, hr, hlog, _⟩ := runs_of_isOk (cfg := Cfg.repaired) (own := Owner.pen) (beh := behSelfTwice) (fuel := 30)
     (ops := [.bind 1 false wantsUnbind 0, .emit 1]) (by decide)
   exact ⟨st, hr, by rw [hlog]; decide, by rw [hlog]; decide, by rw [hlog]; decide⟩
 
@@ -383,7 +413,7 @@ example : ∃ st, Runs Cfg.repaired Owner.pen behSelfTwice 30 [.bind 1 false wan
     request followed by an occurrence of the event, and no delivery to the unbound binding. -/
 example : ∃ st, Runs Cfg.repaired Owner.pen behReemit 30 [.bind 1 false wantsUnbind 0, .unbind 0] st ∧
     Ev.unbindReq 0 ∈ st.log ∧ Ev.occBegin 1 1 false ∈ st.log ∧ st.log.countP (isEnterFire 0) = 0 := by
-  obtain ⟨st, hr, hlog⟩ := runs_of_isOk (cfg := Cfg.repaired) (own := Owner.pen) (beh := behReemit) (fuel := 30)
+  obtain ⟨st, hr, hlog, _⟩ := runs_of_isOk (cfg := Cfg.repaired) (own := Owner.pen) (beh := behReemit) (fuel := 30)
     (ops := [.bind 1 false wantsUnbind 0, .unbind 0]) (by decide)
   exact ⟨st, hr, by rw [hlog]; decide, by rw [hlog]; decide, by rw [hlog]; decide⟩
 
